@@ -577,6 +577,26 @@ structure Sources where
   env  : Option Word := none
   deriving Repr, Inhabited
 
+/-- pieces of a byte string between newline characters (`"a\nb\n"` ↦ `["a", "b", ""]`) -/
+def splitNl : Word → List Word
+  | [] => [[]]
+  | c :: cs =>
+    match splitNl cs with
+    | [] => [[]]                       -- unreachable: splitNl is never empty
+    | p :: ps => if c == '\n' then [] :: p :: ps else (c :: p) :: ps
+
+/-- the lines the `std::getline` loop of `readArgumentFile` hands to the evaluation, from the bytes of
+    the file: every piece terminated by a newline, and a last piece without terminating newline if it
+    is not empty (the loop is `while (std::getline( f, line))` since `fix:` "last line of the argument
+    file …"; `fileLinesHead` is the pinned loop) -/
+def fileLines (content : Word) : List Word :=
+  let ps := splitNl content
+  if ps.getLast? == some [] then ps.dropLast else ps
+
+/-- the pinned loop `while (!std::getline( f, line).eof())`: the read that meets the end of the file
+    ends the loop *before* its line is processed, so a last line without terminating newline is lost -/
+def fileLinesHead (content : Word) : List Word := (splitNl content).dropLast
+
 /-- `readArgumentFile`: every non-empty line not starting with '#' is split into words and iterated -/
 def readFileLines (cfg : Cfg) : List Word → HState → Res HState
   | [], h => .ok h
